@@ -1,6 +1,6 @@
 package main
 
-func init() { register("C01", checkC01) }
+func init() { register("C01", checkC01, cfgLinux386) }
 
 func checkC01(p *Program, tier string) *Result {
 	r := newResult("C01")
